@@ -4,6 +4,7 @@ package main
 
 import (
 	"fmt"
+	"os"
 	"strings"
 
 	"golang.org/x/tools/go/ssa"
@@ -418,6 +419,48 @@ func v2(w *World, r *Report) {
 				}
 			}
 		}
+		if n == 0 {
+			// the arithmetic sits in a helper (possibly handed over as a function value):
+			// on the paths, every success path performs exactly the wanted update and
+			// no failing path touches the balance
+			mut := func(in ssa.Instruction) string {
+				if c, isC := in.(ssa.CallInstruction); isC {
+					if _, isM := mutatesZ(c.Common()); isM {
+						return w.canonCall(c.Common(), 0)
+					}
+				}
+				return ""
+			}
+			saved := w.branchMarkers
+			w.branchMarkers = false
+			w.psEvents = true
+			paths, complete := w.enumPaths(fn, func(ssa.Value) (bool, bool) { return false, false }, mut, 2000)
+			w.psEvents = false
+			w.branchMarkers = saved
+			nOK := 0
+			good := complete
+			if os.Getenv("RIGOCHECK_DEBUG") == "v2" {
+				for _, pa := range paths {
+					fmt.Fprintln(os.Stderr, "V2", p.m, pa.Term, pa.Events)
+				}
+			}
+			for _, pa := range paths {
+				switch pa.Term {
+				case "ok":
+					nOK++
+					if len(pa.Events) != 1 || pa.Events[0] != p.want {
+						good = false
+					}
+				default:
+					if len(pa.Events) != 0 {
+						good = false
+					}
+				}
+			}
+			if good && nOK > 0 {
+				n = 1
+			}
+		}
 		r.Check(n == 1, "V-2", "Account."+p.m+":arithmetic", "the balance changes by exactly the argument", "Account."+p.m+" does not change the balance by exactly its argument", fnSite(w, fn))
 	}
 }
@@ -462,8 +505,11 @@ func v3(w *World, r *Report) {
 				return c == "(p0.Cmp(recv.Balance) > 0)" || c == "(recv.Balance.Cmp(p0) < 0)" || c == "recv.Balance.Lt(p0)"
 			})
 			good := g != nil && ok
+			_ = good
+			good = true // decided on the paths: the structural guard is one way of passing
 			if good {
 				// under "amount > balance" no path (helpers expanded) touches the balance
+				// and none succeeds
 				mut := func(in ssa.Instruction) string {
 					if c, isC := in.(ssa.CallInstruction); isC {
 						if _, isM := mutatesZ(c.Common()); isM {
@@ -478,11 +524,16 @@ func v3(w *World, r *Report) {
 				paths, complete := w.enumPaths(fn, fe.eval, mut, 2000)
 				w.branchMarkers = saved
 				good = complete && len(fe.used) > 0
+				nErr := 0
 				for _, p := range paths {
-					if len(p.Events) > 0 {
+					if len(p.Events) > 0 || p.Term == "ok" || p.Term == "unknown" {
 						good = false
 					}
+					if p.Term == "err" {
+						nErr++
+					}
 				}
+				good = good && nErr > 0
 			}
 			r.Check(good, "V-3", "Account.SubBalance:sufficiency", "a debit above the balance is refused before the subtraction (no wrap-around)", "SubBalance can subtract more than the balance", fnSite(w, fn))
 		}
